@@ -430,7 +430,7 @@ func metaXLSX(c XCase) vr.Meta {
 }
 
 func TestXLSXOrder(t *testing.T) {
-	vr.Prop(t, "xlsx", vr.N(1500, 8000), genXLSX, metaXLSX, checkXLSX)
+	vr.Prop(t, "xlsx", vr.N(2500, 30000), genXLSX, metaXLSX, checkXLSX)
 }
 
 // ---------------------------------------------------------------------------
@@ -546,6 +546,7 @@ func genPPTX(t *rapid.T) PCase {
 		}
 	}
 	pptxw.GenPhysical(t, &d)
+	d.Opt.MasterText = "Click to edit " + k.next() // master/layout prompt text belongs to no slide
 	return PCase{d}
 }
 
@@ -580,7 +581,7 @@ func metaPPTX(c PCase) vr.Meta {
 }
 
 func TestPPTXOrder(t *testing.T) {
-	vr.Prop(t, "pptx", vr.N(1500, 8000), genPPTX, metaPPTX, checkPPTX)
+	vr.Prop(t, "pptx", vr.N(2500, 30000), genPPTX, metaPPTX, checkPPTX)
 }
 
 // ---------------------------------------------------------------------------
@@ -695,5 +696,5 @@ func metaEPUB(c ECase) vr.Meta {
 }
 
 func TestEPUBOrder(t *testing.T) {
-	vr.Prop(t, "epub", vr.N(1500, 8000), genEPUB, metaEPUB, checkEPUB)
+	vr.Prop(t, "epub", vr.N(2500, 30000), genEPUB, metaEPUB, checkEPUB)
 }
